@@ -104,7 +104,7 @@ def trace_interp(ctx, tag, n, mode="mixed", chunks=8, cases_file=None):
     summ = json.load(open(prefix + ".summary.json"))
     ctx.extra.setdefault("recorded", {})[tag] = {k: summ[k] for k in ("generated", "accepted", "rejected_by_verifier", "events", "outcomes")}
     for c in summ["crashes"]:
-        ctx.violation(f"interpreter crashed on a verifier-accepted program ({c['how']})",
+        ctx.violation(f"the process died while running a verifier-accepted program ({c['how']}): the interpreter runs first, then - if it returned a value - the compiled engines in the same process",
                       {"kind": "trace", "case": c["case"], "how": c["how"]})
     # deviations of recorded interpreter findings are enabled whatever the property (otherwise a
     # trace stops being checked at the first deviating step); they are REPORTED only by the
